@@ -104,6 +104,21 @@ func (t *Type) RemoveAttr(attr string) {
 
 // AddRel adds a relationship to the type.
 func (t *Type) AddRel(rel Rel) error {
+	if err := t.checkRel(rel); err != nil {
+		return err
+	}
+
+	if t.Rels == nil {
+		t.Rels = map[string]Rel{}
+	}
+
+	t.Rels[rel.FromName] = rel
+
+	return nil
+}
+
+// checkRel reports why rel cannot be added to the type, if it cannot.
+func (t *Type) checkRel(rel Rel) error {
 	// Validation
 	if rel.FromName == "" {
 		return fmt.Errorf("jsonapi: relationship name is empty")
@@ -119,12 +134,6 @@ func (t *Type) AddRel(rel Rel) error {
 			return fmt.Errorf("jsonapi: relationship name %q is already used", rel.FromName)
 		}
 	}
-
-	if t.Rels == nil {
-		t.Rels = map[string]Rel{}
-	}
-
-	t.Rels[rel.FromName] = rel
 
 	return nil
 }
